@@ -21,6 +21,7 @@ type verifRollWorld struct {
 	// same children as the sync hook and finalized = finalizeAnswers[x]
 	finalizeAnswers map[string]bool
 	requireReady    bool // children must carry status condition Ready=True to count as healthy
+	statusStanza    bool // the hook's children carry an (empty) status stanza and NOBODY ever writes a child's status
 	nested          bool
 	global          string // nested mode: value of the NON-revisioned field spec.x // revisioned value lives at spec.template.v, revision history = [spec.template]
 	replicas   int  // 0 = all names
@@ -56,6 +57,10 @@ func verifRollHook(r *verifRollWorld) *verifHook {
 			c := r.child(n, x)
 			if r.nested {
 				c.Object["data"].(map[string]interface{})["g"] = g
+			}
+			if r.statusStanza {
+				// what hooks written with typed structs emit
+				c.Object["status"] = map[string]interface{}{}
 			}
 			kids = append(kids, c)
 		}
@@ -195,6 +200,9 @@ func (r *verifRollWorld) setSpec(x string) {
 
 // markHealthy plays the fair environment: every child reports its generation observed.
 func (r *verifRollWorld) markHealthy() {
+	if r.statusStanza {
+		return // these children have no controller of their own: .status stays absent
+	}
 	for _, o := range r.w.Srv.All(r.childRes.Name) {
 		o.Object["status"] = map[string]interface{}{"observedGeneration": o.GetGeneration()}
 		r.w.Srv.Put(r.childRes.Name, o)
